@@ -104,15 +104,36 @@ def rule_verify_before_queue(ctx):
            "verify_pregenesis_block reachable for b.number %s first_block" % sorted(reach), f.loc())
 
 
+def only_reached_from(ctx, f, allowed, depth=0):
+    """The root function of body f is one of `allowed`, or every workspace caller of it (transitively, <= 3
+    levels) is: a private function factored out of an allowed anchor."""
+    r = root_fn(f)
+    if r.qname in allowed:
+        return True
+    if depth >= 3:
+        return False
+    callers = set()
+    for g in ctx.F.fns:
+        if g.in_testonly():
+            continue
+        for b in g.blocks:
+            t = b["t"]
+            if t["k"] == "call" and "decl" in t["f"]:
+                d, res, rk = g.callee(t)
+                if res is not None and res.path == r.path:
+                    callers.add(g)
+    return bool(callers) and all(only_reached_from(ctx, g, allowed, depth + 1) for g in callers)
+
+
 def rule_single_door(ctx):
     R = "C08.2"
     ctx.rule(R, "single door: BlockStore::try_push has one caller (inside the send_if_modified closure of queue_block), update_persisted one caller (try_send_modify closure of the runner); BlockStore fields are written only by its own methods; BlockStore is constructed only in EngineManager::new")
     tp = calls_to(ctx, BS + "::try_push")
-    ok = len(tp) == 1 and tp[0][0].kind == "closure" and root_fn(tp[0][0]).qname == EM + "::queue_block"
+    ok = len(tp) == 1 and tp[0][0].kind == "closure" and only_reached_from(ctx, tp[0][0], {EM + "::queue_block"})
     ctx.ob(R, "callers of try_push", ok, "try_push is called only from the closure in EngineManager::queue_block" if ok else
            "try_push callers: %s" % [x[0].qname for x in tp], tp[0][0].loc() if tp else None)
     up = calls_to(ctx, BS + "::update_persisted")
-    ok = len(up) == 1 and up[0][0].kind == "closure" and root_fn(up[0][0]).qname.endswith("EngineManagerRunner::run")
+    ok = len(up) == 1 and up[0][0].kind == "closure" and only_reached_from(ctx, up[0][0], {"zksync_consensus_engine::manager::EngineManagerRunner::run"})
     ctx.ob(R, "callers of update_persisted", ok, "update_persisted is called only from the runner's try_send_modify closure" if ok else
            "update_persisted callers: %s" % [x[0].qname for x in up])
     # field writers
@@ -141,7 +162,12 @@ def rule_single_door(ctx):
             if last in ("send", "send_modify", "send_if_modified", "send_replace", "try_send_modify") and ("watch" in c["q"] or "sync::try_send_modify" in c["q"]):
                 tys = [f.ty(i).s for i in c["t"]["f"].get("ga", [])]
                 if any(t == BS for t in tys):
-                    mut.append((root_fn(f).qname.split("::")[-2:], last))
+                    # a private function factored out of one of the two doors counts as that door
+                    door = None
+                    for dq in (EM + "::queue_block", "zksync_consensus_engine::manager::EngineManagerRunner::run"):
+                        if only_reached_from(ctx, f, {dq}):
+                            door = dq.split("::")[-2:]
+                    mut.append((door or root_fn(f).qname.split("::")[-2:], last))
     exp = sorted([(["EngineManager", "queue_block"], "send_if_modified"), (["EngineManagerRunner", "run"], "try_send_modify")])
     ctx.ob(R, "watch mutations", sorted(mut) == exp, "the BlockStore watch is mutated only through send_if_modified(try_push) and try_send_modify(update_persisted)" if sorted(mut) == exp else
            "BlockStore watch mutation sites: %s" % sorted(mut))
@@ -300,30 +326,11 @@ def rule_eviction(ctx):
     # the front that is compared is cache[0]
     idx = [T.args_of(c) for c in T.calls() if c["q"] == "std::ops::Index::index"]
     ok = any(a[1] == ("const", 0) and field_path(a[0])[1][-1:] == ["cache"] for a in idx)
-    ctx.ob(R, "compared element is the front", ok, "the eviction test reads cache[0]" if ok else "the eviction test does not read the front element", f.loc())
+    ok = ok or any(c["q"].endswith("VecDeque::front") and field_path(T.args_of(c)[0])[1][-1:] == ["cache"] for c in T.calls())
+    ok = ok or any(c["q"].endswith("VecDeque::get") and field_path(T.args_of(c)[0])[1][-1:] == ["cache"] and T.args_of(c)[1] == ("const", 0) for c in T.calls())
+    ctx.ob(R, "compared element is the front", ok, "the eviction test reads the front of the cache (cache[0] / front() / get(0))" if ok else "the eviction test does not read the front element", f.loc())
     cap = ctx.F.const(BS + "::CACHE_CAPACITY")
     ctx.ob(R, "CACHE_CAPACITY", cap is not None and cap >= 1, "CACHE_CAPACITY = %s" % cap)
-
-
-def only_reached_from(ctx, f, allowed, depth=0):
-    """The root function of body f is one of `allowed`, or every workspace caller of it (transitively, <= 3
-    levels) is: a private function factored out of an allowed anchor."""
-    r = root_fn(f)
-    if r.qname in allowed:
-        return True
-    if depth >= 3:
-        return False
-    callers = set()
-    for g in ctx.F.fns:
-        if g.in_testonly():
-            continue
-        for b in g.blocks:
-            t = b["t"]
-            if t["k"] == "call" and "decl" in t["f"]:
-                d, res, rk = g.callee(t)
-                if res is not None and res.path == r.path:
-                    callers.add(g)
-    return bool(callers) and all(only_reached_from(ctx, g, allowed, depth + 1) for g in callers)
 
 
 def rule_single_writer(ctx):
@@ -375,6 +382,30 @@ def rule_single_writer(ctx):
                     rt = T.rvalue(st["r"])
                     if chain(rt)[1][-2:] == ["number()", "next()"]:
                         okn = True
+    if not okn:
+        # the selecting body is a helper that RETURNS block.number().next(); its caller stores the result in the cursor
+        rts = []
+        for bi, b in enumerate(f.blocks):
+            for st in b["s"]:
+                if st["k"] == "assign" and st["p"]["l"] in Q.ret_locals(f) and not st["p"].get("pr") and st["r"]["k"] == "agg" and st["r"].get("variant") == "Ok":
+                    rts.append(T.rvalue(st["r"]))
+        ret_ok = bool(rts) and all(any(chain(x)[1][-2:] == ["number()", "next()"] and any(y[0] == "call" and y[1].endswith("sync::wait_for_some") for y in subterms(x)) for x in subterms(r)) for r in rts)
+        if ret_ok and cursor is not None:
+            r = root_fn(f)
+            for g in non_test(ctx):
+                Tg = ctx.T(g)
+                for cc in Tg.calls():
+                    if (cc["rq"] or cc["q"]) == r.qname:
+                        # the cursor passed in is the variable that receives the result
+                        a_in = [x for x in Tg.args_of(cc) if x[0] in ("var", "upvar")]
+                        for b2 in g.blocks:
+                            for st in b2["s"]:
+                                if st["k"] == "assign":
+                                    rt = Tg.rvalue(st["r"])
+                                    if any(x[0] == "call" and x[1] == r.qname for x in subterms(rt)) and any(x[0] in ("try", "await") for x in subterms(rt)):
+                                        dst = Tg.place(st["p"]) if st["p"].get("pr") else ("var", st["p"]["l"], g.var_names().get(st["p"]["l"]))
+                                        if any(dst[:2] == x[:2] or (dst[0] == "upvar" and x == dst) for x in a_in):
+                                            okn = True
     ctx.ob(R, "cursor advance", okn, "the cursor is set to block.number().next() of the block just selected" if okn else "the cursor is not advanced to block.number().next()", f.loc())
 
 
